@@ -101,7 +101,7 @@ func checkC12(c *Ctx, r *Report) {
 
 // C15 — parameter sets and slice headers (id-domain typing clause only).
 func checkC15(c *Ctx, r *Report) {
-	r.Explanation = "L-EARLYLOAD: in a parser that fills a structure it creates, a field with a single store from the stream is not loaded (outside loops) before that store with the loaded value used afterwards; L-RAWFIELD: a field that the function reduces with a constant modulus and compares in the reduced form (AVC slice_type % 5) is not also compared raw with a constant; O-SIZELAST: where a parser stores the reader's byte count as the size of its result (SliceHeader.Size, SPS.NrBytesRead) no read from that reader is reachable afterwards; DEP: CreateAVCDecConfRec sets profile, compatibility and level from the SPS on every path to the successful return; T-VERBATIM: avc.CodecString formats SPS.Profile, SPS.ProfileCompatibility and SPS.Level as loaded (conversions only, no arithmetic); One structural clause (id-domain typing): every lookup in / insertion into a map of sequence parameter sets is keyed by a value from the SPS-id domain " +
+	r.Explanation = "T-MMCO: in avc.ParseSliceHeader each memory_management_control_operation 1..6 is followed by exactly the number of Exp-Golomb operands of ITU-T H.264 7.3.3.3 (1,1,2,1,0,1) on the path selected by its value; L-EARLYLOAD: in a parser that fills a structure it creates, a field with a single store from the stream is not loaded (outside loops) before that store with the loaded value used afterwards; L-RAWFIELD: a field that the function reduces with a constant modulus and compares in the reduced form (AVC slice_type % 5) is not also compared raw with a constant; O-SIZELAST: where a parser stores the reader's byte count as the size of its result (SliceHeader.Size, SPS.NrBytesRead) no read from that reader is reachable afterwards; DEP: CreateAVCDecConfRec sets profile, compatibility and level from the SPS on every path to the successful return; T-VERBATIM: avc.CodecString formats SPS.Profile, SPS.ProfileCompatibility and SPS.Level as loaded (conversions only, no arithmetic); One structural clause (id-domain typing): every lookup in / insertion into a map of sequence parameter sets is keyed by a value from the SPS-id domain " +
 		"(SPS.ParameterID, SPS.SpsID, PPS.SeqParameterSetID) and never by one from the PPS-id domain (PPS.PicParameterSetID, SliceHeader.PicParamID / PicParameterSetId); maps of picture parameter sets the other way round. " +
 		"(L-SIGNEDMOD) where a signed sum that includes a signed Exp-Golomb delta is reduced modulo a constant M (the scaling-list recurrence), the dividend carries a constant bias of at least M; So the slice resolves its PPS by the slice's pps id and the SPS by THAT PPS's sps id. (L-SIBLING) no parser loop fills one of two twin lists (…L0/…L1, …S0/…S1) while deciding with the other list only; (T-SPEC) the sample-aspect-ratio table of avc.GetSARfromIDC equals H.264 Table E-1; (FWD-FIELD) no field-to-field copy between two struct types takes the value of a sibling field when both types have both names (e.g. chroma bit depth filled from luma bit depth). Parsed field values, the cropping formula, slice header length and codec strings are NOT decided."
 	spsDom := map[string]bool{"SPS.ParameterID": true, "SPS.SpsID": true, "PPS.SeqParameterSetID": true}
@@ -205,6 +205,16 @@ func checkC15(c *Ctx, r *Report) {
 		r.Undecided("L-EARLYLOAD", "scope", "", fmt.Sprintf("only %d fields stored once and loaded in their creating parser found", n))
 	}
 	requireFixture(r, "L-EARLYLOAD", "parseEarlyWrong", func(fc *Ctx, s *Report) { ruleLoadBeforeStore(fc, s, nil) })
+	if n := ruleMMCOOperands(c, r, "avc.ParseSliceHeader"); n != 1 {
+		r.Undecided("T-MMCO", "scope", "", fmt.Sprintf("%d reads of memory_management_control_operation found in avc.ParseSliceHeader, 1 expected (an Exp-Golomb value compared with at least four constants including 0)", n))
+	}
+	requireFixture(r, "T-MMCO", "parseMarkingWrong:mmco=3", func(fc *Ctx, s *Report) {
+		for _, f := range fc.RepoFuncs(nil) {
+			if strings.HasSuffix(SSAFuncName(f), "parseMarkingWrong") {
+				ruleMMCOOperands(fc, s, SSAFuncName(f))
+			}
+		}
+	})
 	if n := ruleReducedNotRaw(c, r, func(f *ssa.Function) bool {
 		return strings.HasPrefix(SSAFuncName(f), "avc.") || strings.HasPrefix(SSAFuncName(f), "hevc.")
 	}); n < 1 {
